@@ -60,6 +60,10 @@ async def run(
     await asyncio.gather(*setup_done_events)
 
     # Start simulator processes
+    # The first process already advances the progress of all simulators,
+    # so each of them needs its real-time reference from the beginning.
+    for sim in world.sims.values():
+        sim.rt_start = perf_counter()
     processes: List[asyncio.Task[None]] = []
     for sim in world.sims.values():
         process = world.loop.create_task(
